@@ -117,12 +117,12 @@ def p5_shape_change(prog):
                 r.viol('P5', key + '/bit-flip-op', f.loc(s['ln']), 'Entry::%s must %s the component bit (found %s)' % (name, 'set' if name == 'add' else 'clear', op))
             # mask = Shl(1, Rem(idx, 8)); byte = Div(idx, 8)
             ml = op_local(s['rv']['b'])
-            d = single_def(body, ml) if ml is not None else None
+            d = resolve_def(body, ml) if ml is not None else None
             ok_mask = False
             if d and d[0] == 'assign' and d[3]['rv']['k'] == 'binop' and d[3]['rv']['op'].startswith('Shl'):
                 one = op_const(d[3]['rv']['a'])
                 sh = op_local(d[3]['rv']['b'])
-                d2 = single_def(body, sh) if sh is not None else None
+                d2 = resolve_def(body, sh) if sh is not None else None
                 if one is not None and one.get('val') == 1 and d2 and d2[0] == 'assign' and d2[3]['rv']['k'] == 'binop' and d2[3]['rv']['op'].startswith('Rem'):
                     a = se.operand(d2[3]['rv']['a'], (d2[1], d2[2]))
                     c8 = op_const(d2[3]['rv']['b'])
@@ -137,7 +137,7 @@ def p5_shape_change(prog):
                 if not body.edge_dominates((sb, move_t), bb) or len(t['args']) < 2:
                     continue
                 l = op_local(t['args'][1])
-                d3 = single_def(body, l) if l is not None else None
+                d3 = resolve_def(body, l) if l is not None else None
                 if d3 and d3[0] == 'assign' and d3[3]['rv']['k'] == 'binop' and d3[3]['rv']['op'].startswith('Div'):
                     a = se.operand(d3[3]['rv']['a'], (d3[1], d3[2]))
                     c8 = op_const(d3[3]['rv']['b'])
